@@ -3,6 +3,9 @@
 
    Abstract syntax (records, field k = node kind):
      num(n) | str(parts) | bool(v) | null | var(name) | call(fn, args)
+     callx(fn, args)     the last argument is written with "..." and stands for its elements
+     flush(lines, close) a heredoc written with <<- : lines are [ind, parts] (ind leading spaces, then template parts without line ends),
+                         a line without parts is empty; close = indentation of the closing marker
      un(op, e)           op in {"-", "!"}
      bin(op, l, r)       op in {"+","-","*","/","%","==","!=","<","<=",">",">=","&&","||"}
      cond(c, a, b) | tuple(items) | obj(keys, vals) | index(e, key) | attr(e, name) | splat(e, name)
@@ -219,6 +222,21 @@ Eval(e, env) ==
     [] e.k = "str"  -> (* a template that is exactly one interpolation yields that value unconverted *)
                        IF Len(e.parts) = 1 /\ e.parts[1].k = "interp" THEN Eval(e.parts[1].e, env) ELSE Cat(Strip(e.parts, FALSE, FALSE), env)
     [] e.k = "call" -> CallFn(e.fn, [i \in 1..Len(e.args) |-> Eval(e.args[i], env)])
+    [] e.k = "callx" -> (* f(a, xs...): xs must be a tuple (null, a string, an object are errors); its elements are the remaining arguments *)
+                        LET vs == [i \in 1..Len(e.args) |-> Eval(e.args[i], env)]
+                            xs == vs[Len(vs)] IN
+                        IF \E i \in 1..Len(vs) : IsErr(vs[i]) THEN Err
+                        ELSE IF Bad(xs) THEN Unspec
+                        ELSE IF xs.t # "tuple" THEN Err
+                        ELSE CallFn(e.fn, SubSeq(vs, 1, Len(vs) - 1) \o xs.v)
+    [] e.k = "flush" -> (* the smallest indentation of the lines that are not empty is taken off every line; the closing marker does not count;
+                           a line that starts with an interpolation in the first column has indentation 0 like any other *)
+                        LET nb == {i \in 1..Len(e.lines) : e.lines[i].parts # <<>>}
+                            m == IF nb = {} THEN 0 ELSE CHOOSE x \in {e.lines[i].ind : i \in nb} : \A i \in nb : x <= e.lines[i].ind
+                            spaces(n) == [j \in 1..n |-> " "]
+                            lp(i) == IF e.lines[i].parts = <<>> THEN <<[k |-> "lit", s |-> <<"\n">>]>>
+                                     ELSE <<[k |-> "lit", s |-> spaces(e.lines[i].ind - m)]>> \o e.lines[i].parts \o <<[k |-> "lit", s |-> <<"\n">>]>>
+                        IN Cat(FlattenSeq([i \in 1..Len(e.lines) |-> lp(i)]), env)
     [] e.k = "un"   -> UnOp(e.op, Eval(e.e, env))
     [] e.k = "bin"  -> BinOp(e.op, Eval(e.l, env), Eval(e.r, env))
     [] e.k = "cond" -> CondResult(Eval(e.c, env), Eval(e.a, env), Eval(e.b, env))
